@@ -767,3 +767,166 @@ def changed_instance_is_the_ptr_target(ctx, P, pre):
             ctx.ob(pre + ".changed-instance-is-the-ptr-target", "%s|InstanceChange#%d" % (f.name, k + 1), ok, f.loc(b, i),
                    "for a PTR the changed instance is DnsPointer::alias()" if ok else "for a PTR the changed `instance` is %s, not the PTR's target" % show(e)[:60])
     ctx.floor(pre + ".changed-instance-is-the-ptr-target", n, 1, "InstanceChange built for a PTR record")
+
+
+# ------------------------------------------------------------------------------------------------
+def _family_of_call(P, f, b, t):
+    n = cname(t).lower()
+    m = method(cname(t)).lower()
+    marks = set()
+    for fam, keys in (("4", ("_v4", "ipv4", "v4_")), ("6", ("_v6", "ipv6", "v6_"))):
+        if any(k in m for k in keys):
+            marks.add(fam)
+    return marks
+
+
+def family_arms_consistent(ctx, P, pre, scope=("service_daemon::Zeroconf::del_interface_addr", "service_daemon::Zeroconf::add_interface",
+                                               "service_daemon::Zeroconf::handle_read", "service_daemon::Zeroconf::del_ip",
+                                               "service_daemon::Zeroconf::check_ip_changes")):
+    """the daemon treats the two IP families in mirror-image arms (`if is_ipv4 { ..v4.. } else { ..v6.. }`,
+    `match ip { V4(..) => .., V6(..) => .. }`).  Inside the arm taken for one family no accessor of the other family is
+    consulted (next_ifaddr_v4 in the IPv6 arm, leave_multicast_v6 in the IPv4 arm, ..): a copy-paste between the arms
+    tests or changes the state of the wrong family"""
+    n = 0
+    for name in scope:
+        fs = P.find(name.split("::", 1)[1]) if name not in P.fns else [P.fns[name]]
+        for f in fs:
+            e4 = guard_edges(P, f, lambda atom, outcome, bb: (atom[0] == "call" and method(strip_generics(atom[1])) == "is_ipv4" and outcome is True) or
+                             (atom[0] == "call" and method(strip_generics(atom[1])) == "is_ipv6" and outcome is False) or
+                             (atom[0] == "variant" and outcome == frozenset(["V4"])))
+            e6 = guard_edges(P, f, lambda atom, outcome, bb: (atom[0] == "call" and method(strip_generics(atom[1])) == "is_ipv4" and outcome is False) or
+                             (atom[0] == "call" and method(strip_generics(atom[1])) == "is_ipv6" and outcome is True) or
+                             (atom[0] == "variant" and outcome == frozenset(["V6"])))
+            if not e4 or not e6:
+                continue
+            k = 0
+            for b, t in f.calls():
+                marks = _family_of_call(P, f, b, t)
+                if len(marks) != 1:
+                    continue
+                in4 = guarded(P, f, b, e4)
+                in6 = guarded(P, f, b, e6)
+                if in4 == in6:
+                    continue        # not inside exactly one family's arm
+                n += 1
+                k += 1
+                fam = "4" if in4 else "6"
+                ok = marks == {fam}
+                ctx.ob(pre + ".family-arms-consistent", "%s|%s#%d" % (f.name, method(cname(t)), k), ok, f.loc(b),
+                       "%s in the IPv%s arm" % (method(cname(t)), fam) if ok else
+                       "%s is consulted in the arm taken for IPv%s: the other family's state decides (copy-paste between the mirror-image arms)" % (method(cname(t)), fam))
+    ctx.floor(pre + ".family-arms-consistent", n, 4, "family-specific calls inside a family arm")
+
+
+def removed_iff_no_ptr_left(ctx, P, pre):
+    """DnsCache::remove_records_on_intf reports an instance as removed exactly when none of the PTR records that remain names
+    it: the `any` over the remaining records tests `alias == instance`, negated outside — not `!=`, which asks whether some
+    OTHER instance remains"""
+    f = P.one("DnsCache::remove_records_on_intf")
+    from .f12 import ret_exprs
+    found = 0
+    bad = []
+    for g in [P.fns[c] for c in _closures_rec(P, f)]:
+        for e in ret_exprs(P, g):
+            for a in (e[1] if e[0] == "phi" else (e,)):
+                neg = False
+                while a[0] == "unop" and a[1] == "Not":
+                    a = a[2]
+                    neg = not neg
+                if a[0] == "call" and method(strip_generics(a[1])) in ("eq", "ne") and has_call(a, "DnsPointer::alias"):
+                    found += 1
+                    is_eq = (method(strip_generics(a[1])) == "eq") != neg
+                    if not is_eq:
+                        bad.append(g.loc())
+    ctx.ob(pre + ".removed-iff-no-ptr-left", f.name, found >= 1 and not bad, f.loc(),
+           "the remaining PTR records are searched for `alias == instance` (%d test(s))" % found if not bad else
+           "the remaining PTR records are searched for `alias != instance` (%s): an instance is reported removed only when no OTHER instance "
+           "of the type remains" % bad)
+
+
+# ------------------------------------------------------------------------------------------------
+def address_types_come_in_pairs(ctx, P, pre):
+    """`is this an address record` is `ty == A || ty == AAAA` everywhere: a function (or closure) that compares a record type
+    with one of the two compares it with the other as well — `A || ANY` silently drops every IPv6-only change"""
+    n = 0
+    for f in P.lib_fns():
+        if f.in_tests():
+            continue
+        tr = None
+        S = set()
+        where_ = None
+        for b, t in f.calls():
+            if method(cname(t)) in ("eq", "ne") and "RRType" in cname(t) and len(t["args"]) == 2:
+                tr = tr or tracer(P, f)
+                for a in t["args"]:
+                    for (adt, v) in value_variants(tr.operand(a, endpos(f, b))):
+                        if str(adt).endswith("RRType"):
+                            S.add(v)
+                            where_ = where_ or f.loc(b)
+        for b in f.live_blocks():
+            t = f.term(b)
+            if t["k"] == "switch":
+                for (tgt, atom, outcome) in switch_edges(P, f, b):
+                    if atom[0] == "variant" and isinstance(outcome, frozenset) and len(outcome) == 1:
+                        ty = _expr_type_hint_safe(f, t)
+                        if ty and ty.replace("&", "").strip().endswith("RRType"):
+                            S |= set(outcome)
+                            where_ = where_ or f.loc(b)
+        if not ({"A", "AAAA"} & S):
+            continue
+        n += 1
+        ok = {"A", "AAAA"} <= S
+        ctx.ob(pre + ".address-types-come-in-pairs", f.name, ok, where_ or f.loc(),
+               "record types compared here: %s" % sorted(S) if ok else
+               "a record type is compared with %s but not with %s (types compared: %s): changes of the other address family are not treated as address changes" % (
+                   "A" if "A" in S else "AAAA", "AAAA" if "A" in S else "A", sorted(S)))
+    ctx.floor(pre + ".address-types-come-in-pairs", n, 4, "functions that compare a record type with A / AAAA")
+
+
+def _expr_type_hint_safe(fn, t):
+    d = t.get("d") or {}
+    if "p" not in d:
+        return None
+    for (b, i, kind, payload) in fn.defs().get(d["p"]["l"], []):
+        if kind == "assign" and payload["k"] == "discr":
+            return payload["p"]["ty"]
+    return None
+
+
+def stop_forgets_every_record_kind(ctx, P, pre):
+    """DnsCache::remove_service_type (stop_browse) removes the SRV, TXT, NSEC records and the subtype of each instance the
+    type lists: all under the same key, the instance name — a `remove` under another name is a silent no-op and leaves
+    that kind of record cached for good"""
+    f = P.one("DnsCache::remove_service_type")
+    tr = tracer(P, f)
+    keys = {}
+    for b, t in f.calls():
+        if "HashMap" in cname(t) and method(cname(t)) in ("remove", "remove_entry") and len(t["args"]) >= 2:
+            for m in ("srv", "txt", "nsec", "subtype"):
+                if recv_is_field(P, f, b, t, m, "DnsCache"):
+                    keys.setdefault(m, set()).add(show(tr.operand(t["args"][1], endpos(f, b))))
+    ctx.require(len(keys) >= 3, pre + ".anchor", f.name + "|per-instance removals", f.loc(), "maps with a removal: %s" % sorted(keys))
+    ref = keys.get("srv") or set()
+    for m in sorted(keys):
+        ok = keys[m] == ref and len(ref) == 1
+        ctx.ob(pre + ".stop-forgets-every-record-kind", "%s|DnsCache.%s" % (f.name, m), ok, f.loc(),
+               "removed under the instance name like the SRV records" if ok else
+               "DnsCache.%s is removed under %s while the SRV records go under %s: nothing is removed, the records stay cached after stop_browse" % (m, sorted(keys[m]), sorted(ref)))
+
+
+def subtype_map_pruned_on_every_sweep(ctx, P, pre):
+    """the reverse map instance -> subtype has no TTL of its own: evict_expired_services prunes it against the PTR records
+    that are left, on every sweep, unless the map itself is empty (the only case in which there is nothing to prune)"""
+    f = P.one("DnsCache::evict_expired_services")
+    rets = [b for b, t in f.calls() if "HashMap" in cname(t) and method(cname(t)) == "retain" and recv_is_field(P, f, b, t, "subtype", "DnsCache")]
+    ctx.require(bool(rets), pre + ".anchor", f.name + "|subtype.retain", f.loc(), "%d" % len(rets))
+    if not rets:
+        return
+    skip = guard_edges(P, f, lambda atom, outcome, bb: atom[0] == "call" and method(strip_generics(atom[1])) == "is_empty" and outcome is True and
+                       expr_mentions_field(atom, "subtype", "DnsCache"))
+    reach = f.reachable(0, removed_edges=skip, removed_blocks=rets)
+    bypass = any(f.term(r)["k"] == "return" for r in reach)
+    ctx.ob(pre + ".subtype-map-pruned-on-every-sweep", f.name, not bypass, f.loc(rets[0]),
+           "every sweep prunes DnsCache.subtype unless it is empty" if not bypass else
+           "a sweep can end without pruning DnsCache.subtype although it has entries (the pruning is skipped on a condition about something "
+           "else): the entries of instances whose PTRs ran out stay for ever")
